@@ -37,10 +37,11 @@ pub fn run(args: &Args) {
     while accepted < n && tries < n * 20 {
         tries += 1;
         let mut grng = rng.fork();
-        let family = match tries % 6 {
+        let family = match tries % 8 {
             0 => "skip_rule_modifiers",
             1 => "rules_named_like_builtins",
             2 => "unicode_property_builtins",
+            3 | 4 => "optimizer_shapes",
             _ => "full",
         };
         let mut cfg = GenCfg::new(Profile::Full);
@@ -51,6 +52,13 @@ pub fn run(args: &Args) {
             }
             "rules_named_like_builtins" => {
                 cfg.builtin_named_rules = true;
+            }
+            "optimizer_shapes" => {
+                // what the optimizer produces is lowered separately by the two back-ends: Skip with many stop
+                // strings, RestoreOnErr around stack-changing branches, concatenated and factored literals
+                cfg.shapes_pct = 60;
+                cfg.skipper_pct = 25;
+                cfg.max_depth = 5;
             }
             _ => {}
         }
@@ -97,7 +105,17 @@ pub fn run(args: &Args) {
         if rules.iter().any(|r| RUST_KEYWORDS.contains(&r.name.as_str())) {
             continue;
         }
-        let text = vmon::print::rules_to_string(&rules);
+        if family == "optimizer_shapes" {
+            // the skipper rewrites scan-until shapes in atomic rules only
+            for r in rules.iter_mut() {
+                if r.name != "WHITESPACE" && r.name != "COMMENT" && has_scan_shape(&r.expr) && grng.chance(1, 2) {
+                    r.ty = pest_meta::ast::RuleType::Atomic;
+                }
+            }
+        }
+        // half of the grammars in a fuzzed spelling (raw control characters and line breaks inside literals,
+        // CRLF line ends, comments, optional separators): both back-ends read the same text
+        let text = if family != "known_findings_witness" && tries % 2 == 0 { vmon::print::Printer::fuzz(&mut grng).rules(&rules) } else { vmon::print::rules_to_string(&rules) };
         let Ok((ast, _)) = read_grammar(&text) else { continue };
         let (inputs, _, _) = vmon::inputs::inputs_for(&ast, &mut grng, 10, 2, 60);
         // only inputs the reference interpreter finishes from every rule: the generated parser has
@@ -126,7 +144,8 @@ pub fn run(args: &Args) {
         let src = &mut sources[b];
         let _ = writeln!(src, "pub mod g{idx} {{");
         let _ = writeln!(src, "    #[derive(pest_derive::Parser)]");
-        let _ = writeln!(src, "    #[grammar_inline = r##########\"{text}\"##########]");
+        // an escaped (not raw) Rust literal: rustc would fold a raw CR LF inside a string literal to LF
+        let _ = writeln!(src, "    #[grammar_inline = {text:?}]");
         let _ = writeln!(src, "    pub struct P;");
         let _ = writeln!(src, "    fn by_name(rule: &str) -> Option<Rule> {{");
         let _ = writeln!(src, "        Some(match rule {{");
@@ -182,6 +201,22 @@ pub fn run(args: &Args) {
     let tdir = args.opt("target-dir").unwrap_or("/verif/target/gen-target");
     write_if_changed(out.join(".cargo/config.toml"), format!("[net]\noffline = true\n\n[build]\ntarget-dir = \"{tdir}\"\nrustflags = [\"--cfg\", \"pest_parser_pest_verif\"]\n")).unwrap();
     println!("{}", json!({"grammars": accepted, "tries": tries, "batches": batches, "config": config_name()}));
+}
+
+fn has_scan_shape(e: &pest_meta::ast::Expr) -> bool {
+    use pest_meta::ast::Expr;
+    let mut found = false;
+    let _ = e.clone().map_top_down(|x| {
+        if let Expr::Rep(inner) = &x {
+            if let Expr::Seq(a, b) = &**inner {
+                if matches!(&**a, Expr::NegPred(_)) && matches!(&**b, Expr::Ident(n) if n == "ANY") {
+                    found = true;
+                }
+            }
+        }
+        x
+    });
+    found
 }
 
 fn write_if_changed(path: impl AsRef<std::path::Path>, content: impl AsRef<[u8]>) -> std::io::Result<()> {
